@@ -63,7 +63,7 @@ func canaryNow() (s string) {
 		add(fp(pv))
 	}
 	for _, pt := range []cty.Type{cty.String, cty.Number, cty.Bool, cty.DynamicPseudoType, cty.EmptyObject, cty.EmptyTuple, cty.List(cty.String)} {
-		add(cty.VerifFingerprintType(pt) + pt.FriendlyName())
+		add(fpType(pt) + pt.FriendlyName())
 	}
 	if js, err := ctyjson.Marshal(u, u.Type()); err == nil {
 		add(string(js))
@@ -88,12 +88,12 @@ func canaryNow() (s string) {
 			add("err")
 		}
 		if ity, err := msgpack.ImpliedType(mp); err == nil {
-			add(cty.VerifFingerprintType(ity))
+			add(fpType(ity))
 		} else {
 			add("err")
 		}
 		if uty, err := ctyjson.UnmarshalType([]byte(ty)); err == nil {
-			add(cty.VerifFingerprintType(uty))
+			add(fpType(uty))
 		} else {
 			add("err")
 		}
